@@ -22,7 +22,7 @@ def reg(pid, mod, fn, level, rule, explanation, assumptions):
     PROPS[pid] = (_lazy(mod, fn), level, rule, explanation, assumptions)
 
 RO_TEXT = " RO (S, dependency): the operators this family is composed of (+, -, *, / in every operand pairing) conform to the algorithms C03 / C04 / C05 establish - their form rules are run as an obligation of this property."
-RD_TEXT = " RD (N): the form rules read a body as if its assertions hold and its expect / unwrap calls succeed; every such explicit panic site in the bodies they evaluated is discharged by the panic-site analysis (interval facts under the path conditions), entered from the public functions among those bodies."
+RD_TEXT = " RD (N): the form rules read a body as if its assertions hold, its expect / unwrap calls succeed and its overflow / bounds checks pass; every such panic site in the bodies they evaluated is discharged by the panic-site analysis (interval facts under the path conditions), entered from the public functions among those bodies."
 RB_TEXT = " RB (X): every body these rules evaluated is identical in the no_std build (fma provider aside; where the rules rely on products, that provider is libm::fma(x,y,z) behind the single wrapper), so the verdict carries over to that configuration."
 
 COMMON_ASSUME = [
